@@ -265,6 +265,9 @@ PropViolations(e, o) ==
         THEN {<<"C10", "an emitted data message is not authenticated/encrypted with the keys the specification derives">>} ELSE {})
   \cup (IF e.ev # "Done" /\ \E i \in DOMAIN e.out : e.out[i].t \in {"RS", "SIG"} /\ (~e.out[i].xs.ok \/ ~e.out[i].xs.sig) /\ st[p].agy # -1 /\ e.st.agy # -1
         THEN {<<"C10", "an emitted signature message does not verify under the keys the specification derives">>} ELSE {})
+  \cup (IF e.ev = "Done" /\ o.fam = "randfail" /\
+             ~((\E i \in DOMAIN o.delivered["B"] : o.delivered["B"][i][1] = 9001) /\ (\E i \in DOMAIN o.delivered["A"] : o.delivered["A"][i][1] = 9002))
+        THEN {<<"C13", "after a failure of the randomness source the conversation is no longer usable">>} ELSE {})
   \cup (IF e.ev = "Done" /\ o.fam = "ake" /\ e.qa = 0 /\ e.qb = 0 /\ o.started /\
              ~(/\ st["A"].ms = "enc" /\ st["B"].ms = "enc" /\ st["A"].sess = st["B"].sess
                /\ st["A"].peer = "B" /\ st["B"].peer = "A" /\ st["A"].rev # st["B"].rev)
@@ -289,7 +292,9 @@ DoInit(e) ==
 
 DoStep(e) ==
   LET r == Apply(e)
-      d == ResultDiffs(e, r) \cup StateDiffs(e, r)
+      \* a call during which the randomness source failed: the specification does not say what it
+      \* returns; the state it leaves behind is adopted and everything that follows is validated
+      d == IF e.rf THEN (IF e.panic THEN {"panic"} ELSE {}) ELSE ResultDiffs(e, r) \cup StateDiffs(e, r)
       o == NextObs(e)
       pv == {v \in PropViolations(e, o) : v \notin obs.flagged}
   IN /\ st' = [st EXCEPT ![e.p] = Resync(r.s, e.st)]
